@@ -37,7 +37,7 @@ Definition st_eerr (e : eerr) : Z :=
   match e with XValue => 1 | XQuant => 2 | XKey => 6 | XOther => 9 end.
 
 Definition oObs (s : seq) : sx :=
-  L [oB (wfb s); I (Z.of_nat (length (s_notes s))); I (s_total s)].
+  L [oB (wfb s); I (Z.of_nat (length (s_notes s))); I (s_total s); I (Z.of_nat (length (s_ccs s)))].
 Definition out (status : Z) (rs : list seq) (extra : list Z) : sx :=
   L [I status; L (map oObs rs); oZs extra].
 
@@ -51,7 +51,8 @@ Definition out_xs (r : Extract.res (list seq)) : sx :=
 (** time functions for adjust_notesequence_times (the harness builds the Python closure
     from the same description): (kind p1 p2)
       1: t * p1 + p2     2: t - p1     3: p1 - t     4: constant p1
-      5: t if t <= p1 else p1 + 2 * (t - p1) *)
+      5: t if t <= p1 else p1 + 2 * (t - p1)
+      6: t if t <= p1 else p2   (p2 < 0: only LATE notes / events are rejected) *)
 Definition time_fun (s : sx) (t : Z) : Z :=
   let p1 := xZ (xnth 1 s) in let p2 := xZ (xnth 2 s) in
   match xZ (xnth 0 s) with
@@ -60,8 +61,13 @@ Definition time_fun (s : sx) (t : Z) : Z :=
   | 3 => p1 - t
   | 4 => p1
   | 5 => if t <=? p1 then t else p1 + 2 * (t - p1)
+  | 6 => if t <=? p1 then t else p2
   | _ => t
   end.
+
+(** preserve_control_numbers: () = None (the default, regenerated from the code), ((n...)) = that list *)
+Definition xPres (s : sx) : list Z :=
+  match xL s with [] => DEFAULT_PRESERVE | l :: _ => xZs l end.
 
 Definition run1 (s : sx) : sx :=
   let a := fun n => xnth n s in
@@ -70,8 +76,8 @@ Definition run1 (s : sx) : sx :=
   | 10 => out_t (TimeOps.shift (xZ (a 2%nat)) (xSeq (a 1%nat)))
   | 11 => out_t (TimeOps.stretch (xZ (a 2%nat)) (xZ (a 3%nat)) (xSeq (a 1%nat)))
   | 12 => out_x (Extract.trim (xSeq (a 1%nat)) (xZ (a 2%nat)) (xZ (a 3%nat)))
-  | 13 => out_x (Extract.extract_subsequence DEFAULT_PRESERVE (xSeq (a 1%nat)) (xZ (a 2%nat)) (xZ (a 3%nat)))
-  | 14 => out_xs (Extract.extract_subsequences DEFAULT_PRESERVE (xSeq (a 1%nat)) (xZs (a 2%nat)))
+  | 13 => out_x (Extract.extract_subsequence (xPres (a 4%nat)) (xSeq (a 1%nat)) (xZ (a 2%nat)) (xZ (a 3%nat)))
+  | 14 => out_xs (Extract.extract_subsequences (xPres (a 3%nat)) (xSeq (a 1%nat)) (xZs (a 2%nat)))
   | 15 => out_xs (Split.split_hop (xSeq (a 1%nat)) (xZ (a 2%nat)) (xB (a 3%nat)))
   | 16 => out_xs (Split.split_list (xSeq (a 1%nat)) (xZs (a 2%nat)) (xB (a 3%nat)))
   | 17 => out_xs (Split.split_time_changes (xSeq (a 1%nat)) (xB (a 2%nat)))
